@@ -189,8 +189,11 @@ CLAIMED.update({
             "Concurrency: the live bytecode of get_next_system_counter is executed symbolically for 2 threads with the schedule as "
             "a z3 variable (E3): no schedule returns equal ids; a model is replayed on real threads. "
             "Trusted: CrossHair + chx, z3, engine/ilv (bytecode subset, switch between any two bytecodes); single-threaded rig "
-            "(inline sender), T3 = 0 for timeouts. NOT covered: in-order/once delivery under true preemption between the receiver, "
-            "dispatcher and timer threads (queue.Queue / Event are C-level and are not encoded); 3 or more concurrent requesters.",
+            "(inline sender), T3 = 0 for timeouts. Receiver/dispatcher hand-over (E3b): the real _dispatcher_thread_function / "
+            "_receiver_thread_function run as statement-stepping generators (regenerated from source) against queue_block / "
+            "trigger_receiver under a symbolic schedule (first thread, <= 3 preemption positions): at rest every queued block was "
+            "delivered once and in order and no trigger was lost; real Event/Queue objects, their methods atomic. NOT covered: "
+            "preemption inside queue.Queue / Event methods, timer threads, 3 or more concurrent requesters.",
             "DESIGN.md §3 C06"),
     "C08": ("One inbound primary against the real handlers in COMMUNICATING state: every stream 0..127 and odd function (quick < 32), "
             "W-bit, all 2^32 system bytes, built-in handlers / a user callback returning the secondary / raising / returning nothing; "
